@@ -92,6 +92,11 @@ CHECKS = {
             "Every operand pair a type-checked query can produce from the alphabet (null, Int64/Uint64 boundaries, floats incl. -0.0, strings, booleans, lists up to length 2 with null and mixed-sign elements) for all 20 operators, at the function layer and through 144 compiled queries; results must equal the reference definitions; panics are violations.",
             "Ordering of lists containing null elements is undefined by the documentation and skipped; regex semantics reuse the regex crate.",
             "DESIGN.md §4 C07"),
+    "C14": ("model_checking",
+            "environment-choice exploration over the process hash seed: one child process per seed under an LD_PRELOAD getrandom shim, until every iteration order of a 4-key schema hash map has been observed; digests of everything compiled / executed must be identical across processes",
+            "Each child compiles ~70k queries (valid and invalid; IR or error text), executes ~20k cases with a recording adapter (rows in order + adapter call trace), compiles the repository's 210 test queries and constructs the C19 schema family (ok or error text), each twice in-process. Quick: >= 32 seeds and until all 24 vertex-type orders of S-det were seen (64 seeds here), plus two free-running processes; thorough: up to 600 seeds with the larger corpus. The evidence reports the hash-map orders covered (24/24 for S-det; every ordered pair of vertex types of S-verif and numbers in both orders).",
+            "The hash seed is the only nondeterminism in scope and is controlled through getrandom (a same-seed replay must reproduce the orders, else machinery error). The introspection adapter's row order (unsorted HashMap iteration) is observed, not judged: the property conditions on a deterministic adapter.",
+            "DESIGN.md §4 C14"),
     "C15": ("exploration",
             "bounded-exhaustive program-space enumeration; each case is executed directly and through the tracing adapter, the trace is serialized / deserialized (RON) and replayed by the repository's TraceReaderAdapter with no data source",
             "For every (query, dataset, arguments) case of the enumerated space (k<=2 quick / k<=3 thorough, plus two-edge structures with tag / count deviations): rows through AdapterTap + tap_results equal the direct rows as a sequence, the trace records one ProduceQueryResult per row, the trace is equal after a RON round trip (thorough: also pretty RON), and assert_interpreted_results(deserialized trace, rows, complete) reproduces exactly those rows.",
